@@ -22,7 +22,7 @@ func propTable() map[string]PropSpec {
 			{Harness: "HarnessC10Table", Reach: []string{"C10.table.end"}},
 			{Harness: "HarnessC10Step", Reach: []string{"C10.step.end"}},
 			{Harness: "HarnessC10Init", ArgSets: [][]int64{{0}, {1}, {n}}, Reach: []string{"C10.init.end"}},
-			{Harness: "HarnessC10Chunk", ArgSets: [][]int64{{1}, {2}, {n}}, Reach: []string{"C10.chunk.end"}},
+			{Harness: "HarnessC10Chunk", ArgSets: [][]int64{{1}, {2}, {n}, {16}, {24}, {40}}, Reach: []string{"C10.chunk.end"}},
 			{Harness: "HarnessC10Residue", Reach: []string{"C10.residue.end"}},
 			{Harness: "HarnessC10Full", ArgSets: [][]int64{{0}, {1}}, Reach: []string{"C10.full.end"}},
 		}
@@ -31,7 +31,7 @@ func propTable() map[string]PropSpec {
 	t["C10"] = PropSpec{
 		ID: "C10", Quick: c10(false), Thorough: c10(true),
 		Bounds: map[string]string{
-			"quick":    "all 256 table entries (symbolic index); one update step for all 2^32 states x 2^8 bytes against the bit-serial shift register (the inductive step: the loop body is the only state transformer); initial value / no final XOR; splitting at every point and byte-wise feeding for messages of 8 symbolic bytes from an arbitrary state; residue 0 for every state; whole-message equivalence with the bit-serial reference for all messages of length 0 and 1",
+			"quick":    "all 256 table entries (symbolic index); one update step for all 2^32 states x 2^8 bytes against the bit-serial shift register (the inductive step: the loop body is the only state transformer); initial value / no final XOR; splitting at every point and byte-wise feeding for messages of 8, 16, 24 and 40 symbolic bytes from an arbitrary state (long enough for a block-wise fast path to be entered); residue 0 for every state; whole-message equivalence with the bit-serial reference for all messages of length 0 and 1",
 			"thorough": "chunking with 32 symbolic bytes",
 		},
 		Outside: "whole-message equivalence for 2 or more symbolic bytes in one query (solver-hard); it follows from table+step+init by induction on the length, which is an argument, not a solver result",
@@ -202,12 +202,14 @@ func propTable() map[string]PropSpec {
 			{Harness: "HarnessC13Encode", ArgSets: enc, Reach: []string{"C13.encode.end"}, Asserts: []string{"C13."}},
 			{Harness: "HarnessC13DecodeBig", ArgSets: [][]int64{{2}, {3}, {4}}, Reach: []string{"C13.big.end"}},
 			{Harness: "HarnessC13Multi", ArgSets: [][]int64{{60, 184}, {60, 100}, {45, 184}, {90, 150}}, Reach: []string{"C13.multi.end"}},
+			{Harness: "HarnessMuxPCRMove", ArgSets: [][]int64{{1}, {5}}, Reach: []string{"mux.pcrmove.end"}, Asserts: []string{"C13."}},
+			{Harness: "HarnessMuxScript", ArgSets: [][]int64{{1475747, 2}, {124797967, 3}, {1470709, 1}}, Reach: []string{"mux.script.end"}, Asserts: []string{"C13."}},
 		}
 	}
 	t["C13"] = PropSpec{
 		ID: "C13", Quick: c13(0), Thorough: c13(1),
 		Bounds: map[string]string{
-			"quick":    "decode: PAT 0/1/4 programs, PMT 0/1/3 streams, SDT/NIT/EIT 0/1/2 entries, TOT; table_id over all variants of the type (EIT: 0x4E..0x6F symbolic); every identifier/flag/version field symbolic; descriptor loops: first loop 0..1 descriptors of {stream identifier, unknown tag, user defined} with 0/2 body bytes, other loops {empty, one stream identifier}; pointer_field in {0,1,5} with arbitrary filler; 1..2 sections per unit; trailing 0xFF stuffing 0/3 bytes; EIT/TOT times are concrete representatives (C15 covers the time kernels); through the Demuxer: a PAT unit of two sections of 45/60/90 programs spanning 3-4 packets with the second section starting inside a continuation packet. encode: PAT 0/1/4 programs, PMT 0/1/3 streams with the same descriptor loops, pointer_field 0/2",
+			"quick":    "decode: PAT 0/1/4 programs, PMT 0/1/3 streams, SDT/NIT/EIT 0/1/2 entries, TOT; table_id over all variants of the type (EIT: 0x4E..0x6F symbolic); every identifier/flag/version field symbolic; descriptor loops: first loop 0..1 descriptors of {stream identifier, unknown tag, user defined} with 0/2 body bytes, other loops {empty, one stream identifier}; pointer_field in {0,1,5} with arbitrary filler; 1..2 sections per unit; trailing 0xFF stuffing 0/3 bytes; EIT/TOT times are concrete representatives (C15 covers the time kernels); through the Demuxer: a PAT unit of two sections of 45/60/90 programs spanning 3-4 packets with the second section starting inside a continuation packet; through the Muxer: every PMT emitted while streams are added/removed and the PCR PID is moved decodes to the program map of that moment. encode: PAT 0/1/4 programs, PMT 0/1/3 streams with the same descriptor loops, pointer_field 0/2",
 			"thorough": "PAT up to 16 programs, PMT up to 6 streams, SDT/NIT/EIT up to 4 entries, descriptor loops of 0..2 descriptors everywhere, three two-section combinations per kind",
 		},
 		Outside: "loops up to the 1021/4093-byte section limits (pure repetition of the same loop body); descriptor bodies (C14); DVB time arithmetic (C15)",
@@ -228,6 +230,7 @@ func propTable() map[string]PropSpec {
 			{Harness: "HarnessC13Encode", ArgSets: enc, Reach: []string{"C13.encode.end"}, Asserts: []string{"C09."}},
 			{Harness: "HarnessC14LangLen", ArgSets: cross(ints(2, 8, 12, 17, 19, 20), ints(0, 2, 3, 4)), Reach: []string{"C14.langlen.end"}, Asserts: []string{"C09."}},
 			{Harness: "HarnessC09Desc", ArgSets: kinds, Reach: []string{"C09.desc.end"}},
+			{Harness: "HarnessC09Repeat", Reach: []string{"C09.repeat.end"}},
 		}
 	}
 	t["C09"] = PropSpec{
@@ -258,6 +261,10 @@ func propTable() map[string]PropSpec {
 		for _, l := range []int64{0, 9, 17} {
 			wd = append(wd, []int64{9, 0, l, 0}, []int64{9, 2, l, 1})
 		}
+		// adaptation field with a preset Length (as parsed): short and long payloads
+		for _, l := range []int64{0, 2, 5, 10, 13} {
+			wd = append(wd, []int64{10, 2, l, 0})
+		}
 		hist = [][]int64{{2, 1}, {3, 2}}
 		lvl := int64(0)
 		maxK := int64(2)
@@ -281,13 +288,14 @@ func propTable() map[string]PropSpec {
 			{Harness: "HarnessMuxStep", ArgSets: step, Reach: []string{"mux.step.end"}, Asserts: prefixes},
 			{Harness: "HarnessMuxScript", ArgSets: script, Reach: []string{"mux.script.end"}, Asserts: prefixes},
 			{Harness: "HarnessMuxPair", ArgSets: append(cross(ints(0, 1, 2, 3, 4), ints(0, 1, 2, 3, 4), ints(0)), []int64{0, 3, 1}, []int64{4, 1, 1}, []int64{1, 0, 1}), Reach: []string{"mux.pair.end"}, Asserts: prefixes},
+			{Harness: "HarnessMuxPCRMove", ArgSets: [][]int64{{1}, {2}, {5}}, Reach: []string{"mux.pcrmove.end"}, Asserts: prefixes},
 			{Harness: "HarnessMuxWrap", Reach: []string{"mux.wrap.end"}, Asserts: prefixes},
 			{Harness: "HarnessMuxPeriod", ArgSets: [][]int64{{1}, {2}, {39}, {40}, {41}, {42}, {43}, {50}}, Reach: []string{"mux.period.end"}, Asserts: prefixes},
 			{Harness: "HarnessMuxBig", ArgSets: [][]int64{{65527, 1}, {65528, 1}, {65530, 1}, {65535, 1}, {65536, 1}, {65530, 0}}, Reach: []string{"mux.big.end"}, Asserts: prefixes},
 		}
 	}
 	muxBounds := map[string]string{
-		"quick":    "one inductive step from an arbitrary valid Muxer state (0..2 streams; every counter, version, dirty flag and the retransmit counter symbolic under the stated invariant; retransmit period 1 and 3) for each of the 8 operations with symbolic arguments, invariant re-checked after the step; all operation histories of length <= 3 from NewMuxer over {Add explicit/auto, Remove, SetPCRPID, WriteTables, WriteData (2 PIDs, with/without AF, 1 or 190 payload bytes), WriteData with an oversized AF, WritePacket 184/185 bytes}; 13 scripted histories of 5-10 operations around failed table emissions, remove/re-add and writes interleaved over two PIDs after a re-add, each with retransmit periods 1, 2 and 3; WriteData with first-packet AF {none, PCR+RAI, private data+RAI, 175-byte and 190-byte private data, exact-fit private data, extension} x timestamps {none, PTS+DTS} x 18 payload lengths around the 184-byte boundaries (1..372) x {first call, later call}, symbolic PID/stream type/payload/timestamps/PCR; every ordered pair of WriteData calls whose last packets need 1 / 2 / 0 / many stuffing bytes (state carried from one packet to the next); 18 units and 34 content changes for counter/version wrap-around; configured retransmit periods {1,2,39,40,41,42,43,50} driven for p+2 calls; two units of 65527/65528/65530/65535/65536 payload bytes (audio and video stream ids) around the PES_packet_length limit; WritePacket with adaptation fields {none, PCR+stuffing, one-byte, private data} and payloads fitting exactly / 1 / 2 bytes over; every output is also demultiplexed by the real Demuxer (C01)",
+		"quick":    "one inductive step from an arbitrary valid Muxer state (0..2 streams; every counter, version, dirty flag and the retransmit counter symbolic under the stated invariant; retransmit period 1 and 3) for each of the 8 operations with symbolic arguments, invariant re-checked after the step; all operation histories of length <= 3 from NewMuxer over {Add explicit/auto, Remove, SetPCRPID, WriteTables, WriteData (2 PIDs, with/without AF, 1 or 190 payload bytes), WriteData with an oversized AF, WritePacket 184/185 bytes}; the PCR PID moved between two configured streams between emissions (periods 1, 2, 5); 13 scripted histories of 5-10 operations around failed table emissions, remove/re-add and writes interleaved over two PIDs after a re-add, each with retransmit periods 1, 2 and 3; WriteData with first-packet AF {none, PCR+RAI, private data+RAI, 175-byte and 190-byte private data, exact-fit private data, extension} x timestamps {none, PTS+DTS} x 18 payload lengths around the 184-byte boundaries (1..372) x {first call, later call}, symbolic PID/stream type/payload/timestamps/PCR; every ordered pair of WriteData calls whose last packets need 1 / 2 / 0 / many stuffing bytes (state carried from one packet to the next); 18 units and 34 content changes for counter/version wrap-around; configured retransmit periods {1,2,39,40,41,42,43,50} driven for p+2 calls; two units of 65527/65528/65530/65535/65536 payload bytes (audio and video stream ids) around the PES_packet_length limit; WritePacket with adaptation fields {none, PCR+stuffing, one-byte, private data} and payloads fitting exactly / 1 / 2 bytes over; every output is also demultiplexed by the real Demuxer (C01)",
 		"thorough": "states with up to 3 streams, all WriteData variants in the step, histories of length 4, timestamps {none, PTS, PTS+DTS}",
 	}
 	muxOutside := "more than 3 streams; ES/program descriptors in the PMT (the PMT-larger-than-one-packet rejection is not exercised); payloads longer than 372 bytes including PES_packet_length > 65535 (writePESHeader's length rule is covered for all sizes in C12); histories longer than 4 other than through the inductive step and the scripts"
@@ -335,9 +343,9 @@ func propTable() map[string]PropSpec {
 		},
 		Outside: "bursts of 16 or more lost packets (excluded by the property); payload contents are fixed patterns in the end-to-end streams (timestamps symbolic)"}
 	c07 := func(th bool) []TaskSpec {
-		pool := [][]int64{{2, 1, 3}, {1, 2, 5}, {2, 2, 3}}
+		pool := [][]int64{{2, 1, 3, 0}, {1, 2, 5, 0}, {2, 2, 3, 0}, {2, 1, 2, 1}, {2, 2, 2, 1}}
 		if th {
-			pool = append(pool, []int64{2, 2, 4}, []int64{3, 1, 3})
+			pool = append(pool, []int64{2, 2, 4, 0}, []int64{3, 1, 3, 0}, []int64{3, 1, 2, 1})
 		}
 		return []TaskSpec{
 			{Harness: "HarnessC07Pool", ArgSets: pool, Reach: []string{"C07.pool.end"}},
@@ -366,7 +374,7 @@ func propTable() map[string]PropSpec {
 				autos = append(autos, []int64{kind, sz})
 			}
 		}
-		chunks = append(chunks, []int64{0, 0, 204}, []int64{1, 0, 192})
+		chunks = append(chunks, []int64{0, 0, 204}, []int64{1, 0, 192}, []int64{3, 0, 188})
 		if !th {
 			// auto-detection of a larger packet size under short reads (quick: seekable and plain readers, 192 and 190 bytes)
 			chunks = append(chunks, []int64{0, 1, 192}, []int64{1, 1, 192}, []int64{0, 1, 190})
@@ -380,13 +388,14 @@ func propTable() map[string]PropSpec {
 		return []TaskSpec{
 			{Harness: "HarnessC08Chunks", ArgSets: chunks, Reach: []string{"C08.chunks.end"}},
 			{Harness: "HarnessC08Auto", ArgSets: autos, Reach: []string{"C08.auto.end"}},
+			{Harness: "HarnessC08Bad", ArgSets: cross(ints(0, 1, 2, 3), ints(0, 1)), Reach: []string{"C08.bad.end"}},
 			{Harness: "HarnessC08Short", ArgSets: [][]int64{{0, 188, 1}, {0, 188, 4}, {1, 188, 1}, {1, 188, 2}, {1, 188, 4}, {2, 188, 1}, {2, 188, 4}, {2, 190, 2}, {0, 191, 1}, {2, 192, 1}, {1, 188, 5}, {2, 188, 5}}, Reach: []string{"C08.short.end"}},
 			{Harness: "HarnessC08Size", ArgSets: sizes, Reach: []string{"C08.size.end"}},
 		}
 	}
 	t["C08"] = PropSpec{ID: "C08", Quick: c08(false), Thorough: c08(true),
 		Bounds: map[string]string{
-			"quick":    "5-packet stream (PAT, PMT, 2 PES units) read through seekable / plain / bufio readers whose first three Read calls return at most c1,c2,c3 bytes for every (c1,c2,c3) in {1,2,100,size-1,size,size+1,193,400}^3, explicit and auto-detected size (188-byte packets on every reader kind; 190/192-byte packets auto-detected on seekable and plain readers); auto-detection for every packet size 188..192 on every reader kind; auto-detection on streams that end inside the 193-byte detection window (one packet of 188/190/191/192 bytes plus 1..5 bytes); packets carried in 188+4 and 188+16 bytes with arbitrary extra bytes for the C11 adaptation-field layouts, through parsePacket and through NextPacket with an explicit size; explicit sizes 192 and 204",
+			"quick":    "5-packet stream (PAT, PMT, 2 PES units) read through seekable / plain / bufio readers whose first three Read calls return at most c1,c2,c3 bytes for every (c1,c2,c3) in {1,2,100,size-1,size,size+1,193,400}^3, explicit and auto-detected size (188-byte packets on every reader kind; 190/192-byte packets auto-detected on seekable and plain readers); auto-detection for every packet size 188..192 on every reader kind; a stream with one damaged packet (sync byte / adaptation_field_length) at every position, on every reader kind incl. a bufio.Reader smaller than a packet: same data, same number of errors, same end; auto-detection on streams that end inside the 193-byte detection window (one packet of 188/190/191/192 bytes plus 1..5 bytes); packets carried in 188+4 and 188+16 bytes with arbitrary extra bytes for the C11 adaptation-field layouts, through parsePacket and through NextPacket with an explicit size; explicit sizes 192 and 204",
 			"thorough": "fragmentation also for 192-byte packets",
 		},
 		Outside: "more than three short reads per stream (each read goes through the same io.ReadFull loop); streams longer than 5 packets; table contents are concrete in these streams (auto-detection compares every byte with the sync byte)"}
@@ -411,6 +420,8 @@ func propTable() map[string]PropSpec {
 			prog = append(prog, []int64{n, 0, 0, 0}, []int64{n, 0, 1, 2})
 		}
 		prog = append(prog, []int64{385, 192, 1, 1}, []int64{410, 204, 0, 2}, []int64{601, 300, 1, 0})
+		// explicit size through a bufio.Reader whose buffer is smaller than a packet
+		prog = append(prog, []int64{377, 188, 0, 3}, []int64{400, 192, 1, 3})
 		paf := [][]int64{{0, 188}, {1, 188}, {7, 188}, {20, 188}, {183, 188}, {250, 188}, {40, 192}}
 		if th {
 			paf = append(paf, [][]int64{{2, 188}, {8, 188}, {13, 188}, {14, 188}, {40, 188}, {100, 188}, {184, 188}, {255, 188}, {20, 204}, {183, 192}}...)
